@@ -127,8 +127,13 @@ def correspond(ctx, scale):
         vq.train(first_mode != 'eval')
         if first_mode == 'frozen':
             kwargs['freeze_codebook'] = True
+        import contextlib
+        autocast_first = (ci % 6 == 4) and first_mode != 'train'       # (a training first call under CPU autocast raises in the unchanged library: lerp dtype)
         try:
-            ret, recs = vqrec.record_call(vq, x, **kwargs)
+            # the initialisation arithmetic must not depend on the ambient autocast mode of the first call
+            with (torch.autocast('cpu', dtype=torch.bfloat16) if autocast_first else contextlib.nullcontext()):
+                ret, recs = vqrec.record_call(vq, x, **kwargs)
+            dist['first_call_under_autocast'] = dist.get('first_call_under_autocast', 0) + int(autocast_first)
         except Exception as ex:
             failures.append({'key': f'vq:exception:{type(ex).__name__}', 'what': f'VectorQuantize({kw}) first call raised {ex!r}', 'case': dict(kw=kw)})
             continue
